@@ -89,9 +89,87 @@ def part_real_db(ctx, out):
     out.extra['real_backend_failure_histories'] = n
 
 
+def part_failed_rerun_shapes(ctx, out):
+    """"executes again on the next run whatever the state of its inputs", over the ways a task declares what it
+    depends on: file_dep, targets, and every kind of uptodate item.  History: (optionally a successful run,) a run
+    in which the task executes -- with --always-execute, so that also a task that is up-to-date by definition
+    executes -- and its action fails, then a plain run with everything else unchanged.  Oracle (from the property
+    text alone): the task's action is executed in the last run."""
+    from doit.task import Task
+    from doit.control import TaskControl
+    from doit.runner import Runner
+    from doit.dependency import Dependency, JsonDB, DbmDB, SqliteDB
+    from doit import tools
+    import runlib
+    SHAPES = ['file_dep', 'no-deps', 'true', 'true+target', 'none+true', 'run_once', 'false', 'config_changed',
+              'callable-true', 'file_dep+true', 'cmd-true']
+    n = 0
+    for backend in (JsonDB, DbmDB, SqliteDB):
+        for shape in SHAPES:
+            for prior in (False, True):
+                if ctx.quick and prior and backend is not JsonDB:
+                    continue
+                d = ctx.subdir('frs%d' % n); n += 1
+                dep_file = os.path.join(d, 'dep.txt'); tgt = os.path.join(d, 'tgt.txt'); db = os.path.join(d, 'db')
+                open(dep_file, 'w').write('a')
+                mode = {'fail': False}
+                execs = []
+
+                def act():
+                    execs.append(mode['fail'])
+                    open(tgt, 'w').write('x')
+                    return not mode['fail']
+
+                def mk():
+                    kw = {}
+                    if shape in ('file_dep', 'file_dep+true'): kw['file_dep'] = [dep_file]
+                    if shape == 'true+target': kw['targets'] = [tgt]
+                    utd = {'true': [True], 'true+target': [True], 'none+true': [None, True], 'run_once': [tools.run_once],
+                           'false': [False], 'config_changed': [tools.config_changed('cfg')],
+                           'callable-true': [lambda task, values: True], 'file_dep+true': [True], 'cmd-true': ['true']}.get(shape)
+                    if utd is not None: kw['uptodate'] = utd
+                    return Task('t', [act], **kw)
+
+                def one_run(always):
+                    tc = TaskControl([mk()]); tc.process(None)
+                    dm = Dependency(backend, db)
+                    log = []
+                    r = Runner(dm, runlib.RecReporter(log, {'t': 0}), always_execute=always)
+                    so = (sys.stdout, sys.stderr)
+                    try:
+                        rc = r.run_all(tc.task_dispatcher())
+                    finally:
+                        sys.stdout, sys.stderr = so
+                    return rc, log
+                if prior:
+                    mode['fail'] = False; one_run(True)
+                mode['fail'] = True
+                b0 = len(execs); rc2, log2 = one_run(True)
+                failed2 = len(execs) == b0 + 1 and any(e[0] == 4 for e in log2)
+                mode['fail'] = False
+                b1 = len(execs); rc3, log3 = one_run(False)
+                out.count('failed-rerun:%s' % shape); out.evaluations += 1
+                out.nontrivial.add(('failed-rerun', backend.__name__, shape, prior))
+                case = dict(part='failed-rerun', backend=backend.__name__, declares=shape, successful_run_before=prior, run2=log2, run3=log3)
+                if not failed2:
+                    out.violations.append(dict(what='harness expectation broken: the task did not execute and fail under --always-execute (%s, %s)' % (shape, backend.__name__),
+                                               shape='c05:failed-rerun-setup', case=case))
+                elif len(execs) == b1:
+                    const = shape in ('true', 'true+target', 'none+true', 'callable-true', 'cmd-true')
+                    out.violations.append(dict(
+                        what='a task declaring %s executed (--always-execute) and FAILED; in the next run, nothing else changed, it was not executed again but skipped (%s backend%s)' % (
+                            {'true': 'uptodate=[True] and no file_dep', 'true+target': 'uptodate=[True], a target and no file_dep', 'none+true': 'uptodate=[None, True] and no file_dep',
+                             'callable-true': 'an uptodate callable that always returns True and no file_dep', 'cmd-true': 'an uptodate shell command that always succeeds and no file_dep'}.get(shape, shape),
+                            backend.__name__, ', after an earlier successful run' if prior else ''),
+                        shape='c05:constant-uptodate-skipped-after-failure' if const else 'c05:failed-task-skipped-next-run', case=case))
+    out.extra['failed_rerun_histories'] = n
+    out.rule += '; plus %d histories "executes and fails under --always-execute, then a plain run" over 11 ways of declaring dependencies x 3 backends' % n
+
+
 def run(ctx):
     out = runfam.run_property(ctx, 'C05')
     part_real_db(ctx, out)
+    part_failed_rerun_shapes(ctx, out)
     return out
 
 
